@@ -287,7 +287,7 @@ def run_case(case, ctx):
 # MANIFEST-BEGIN
 MANIFEST = {
     'technique': 'history monitor: structural fingerprint (M-tpl) of the template object graph after every operation of generated sequences + reference-model check of the vector field and of repeated run(in_place=False) afterwards',
-    'level_text': 'Random sequences of the operations the property lists are applied to generated templates with shared operator/node objects and hierarchical edges; after every operation a structural fingerprint of the template, of all operator and node templates it is built from and of a sibling circuit built from the same objects must be identical to the initial one (the first difference is reported), afterwards the compiled vector field must still equal the reference at random states and two run(in_place=False) calls must return identical frames equal to the reference trajectory. Read-only simulations with long pulse-like inputs (caches kept) on a sibling circuit must return the trajectory of their own input. derive_circuit: update_template without any change followed by update_var on an edge (with and without declared attributes) and on a node variable of the DERIVED circuit. Held on observed sequences only.',
+    'level_text': 'Random sequences of the operations the property lists are applied to generated templates with shared operator/node objects and hierarchical edges; after every operation a structural fingerprint of the template, of all operator and node templates it is built from and of a sibling circuit built from the same objects must be identical to the initial one (the first difference is reported), afterwards the compiled vector field must still equal the reference at random states and two run(in_place=False) calls must return identical frames equal to the reference trajectory. Read-only simulations with long pulse-like inputs (caches kept) on a sibling circuit must return the trajectory of their own input. derive_circuit: update_template without any change followed by update_var on an edge (with and without declared attributes) and on a node variable of the DERIVED circuit. A population_sibling family applies update_var / node_values to one of two circuits built from the same PopulationTemplate / Connectivity containers (machinery of C16). Held on observed sequences only.',
     'level_note': 'Trusted: vp/tplfp.py (covers equations, variable dicts, operator variations, edge tuples/attribute dicts, sub-circuits, sharing), vp/ref.py. The remembered simulation state (CircuitTemplate.state) is treated as documented statefulness (DESIGN 4a). Loading derived templates is exercised under C15.',
 }
 # MANIFEST-END
